@@ -626,22 +626,32 @@ struct PI {
         {   // Au
             const L x = left(a); const Rr y = right(b);
             long u0 = g_ub;
-            s += std::string("au_eq=") + b01(x == y) + " au_ne=" + b01(x != y) + " au_lt=" + b01(x < y) +
-                 " au_le=" + b01(x <= y) + " au_gt=" + b01(x > y) + " au_ge=" + b01(x >= y);
-            s += " au_ub_cmp=" + std::to_string(g_ub - u0); u0 = g_ub;
+            const bool e = (x == y), ne = (x != y), l = (x < y), le = (x <= y), g = (x > y), ge = (x >= y);
+            const long ucmp = g_ub - u0; u0 = g_ub;
+            s += std::string("au_eq=") + b01(e) + " au_ne=" + b01(ne) + " au_lt=" + b01(l) +
+                 " au_le=" + b01(le) + " au_gt=" + b01(g) + " au_ge=" + b01(ge);
+            s += " au_ub_cmp=" + std::to_string(ucmp);
             const auto sum = x + y;
-            s += " au_add=" + Txt<CRep>::str(sum.in(AuSum::unit)) + " au_ub_add=" + std::to_string(g_ub - u0); u0 = g_ub;
+            const long uadd = g_ub - u0; u0 = g_ub;
             const auto dif = x - y;
-            s += " au_sub=" + Txt<CRep>::str(dif.in(AuSum::unit)) + " au_ub_sub=" + std::to_string(g_ub - u0);
+            const long usub = g_ub - u0;
+            s += " au_add=" + Txt<CRep>::str(sum.in(AuSum::unit)) + " au_ub_add=" + std::to_string(uadd);
+            s += " au_sub=" + Txt<CRep>::str(dif.in(AuSum::unit)) + " au_ub_sub=" + std::to_string(usub);
         }
         {   // std::chrono on the same counts
             const D1 x{a}; const D2 y{b};
             long u0 = g_ub;
-            s += std::string(" ch_eq=") + b01(x == y) + " ch_ne=" + b01(x != y) + " ch_lt=" + b01(x < y) +
-                 " ch_le=" + b01(x <= y) + " ch_gt=" + b01(x > y) + " ch_ge=" + b01(x >= y);
-            s += " ch_ub_cmp=" + std::to_string(g_ub - u0); u0 = g_ub;
-            s += " ch_add=" + Txt<typename ChSum::rep>::str((x + y).count()) + " ch_ub_add=" + std::to_string(g_ub - u0); u0 = g_ub;
-            s += " ch_sub=" + Txt<typename ChSum::rep>::str((x - y).count()) + " ch_ub_sub=" + std::to_string(g_ub - u0);
+            const bool e = (x == y), ne = (x != y), l = (x < y), le = (x <= y), g = (x > y), ge = (x >= y);
+            const long ucmp = g_ub - u0; u0 = g_ub;
+            s += std::string(" ch_eq=") + b01(e) + " ch_ne=" + b01(ne) + " ch_lt=" + b01(l) +
+                 " ch_le=" + b01(le) + " ch_gt=" + b01(g) + " ch_ge=" + b01(ge);
+            s += " ch_ub_cmp=" + std::to_string(ucmp);
+            const auto csum = x + y;
+            const long uadd = g_ub - u0; u0 = g_ub;
+            const auto cdif = x - y;
+            const long usub = g_ub - u0;
+            s += " ch_add=" + Txt<typename ChSum::rep>::str(csum.count()) + " ch_ub_add=" + std::to_string(uadd);
+            s += " ch_sub=" + Txt<typename ChSum::rep>::str(cdif.count()) + " ch_ub_sub=" + std::to_string(usub);
         }
         return s;
     }
